@@ -299,11 +299,14 @@ class Episode:
         self.space_contracts = ([Cash()] if cfg.get("cash_in_space") else []) + list(self.traded)
         if space == "box":
             self.space = BoxPortfolio(self.space_contracts, low=cfg.get("low", -1.0), high=cfg.get("high", 2.0),
-                                      as_weights=cfg.get("as_weights", True))
+                                      as_weights=cfg.get("as_weights", True), fractional=cfg.get("fractional", True))
         else:
             n = len(self.space_contracts)
             self.allocs = [[0.0] * n, [0.5] * n, [-0.5] * n, [1.0] + [0.0] * (n - 1)]
-            self.space = DiscretePortfolio(self.space_contracts, self.allocs)
+            if cfg.get("as_weights", True) is False:
+                self.allocs = [[0.0] * n, [3.0] * n, [-2.0] * n, [5.0] + [0.0] * (n - 1)]     # numbers of contracts
+            self.space = DiscretePortfolio(self.space_contracts, self.allocs, as_weights=cfg.get("as_weights", True),
+                                           fractional=cfg.get("fractional", True))
         kw = {}
         if cfg.get("reward"):
             kw["reward"] = cfg["reward"]
